@@ -52,6 +52,18 @@ CHECKS = {
         text="For every position {struct, enum, variant, field} and every key supported in both namespaces: #[serde(K)] vs #[ts(K)]; one list vs split lists; ts value vs a different serde value in both list orders; each of 10 unsupported or unparseable serde entries (skip_serializing_if, rename(serialize=..), bound(..), default = path, other, alias, deny_unknown_fields, borrow, getter, crate) at every index of 1- and 2-entry lists; and with serde-compat off a serde list vs none - under serde-compat on/off x no-serde-warnings on/off. Each pair must expand without error to the same implementation.",
         note="Trusted: TLC; canonicalisation sorts only the dependency statements and where-predicates (HashSet order). `#[serde(with)]` is excluded from 'inert' because ts-rs documents that it demands #[ts(as/type)].",
         design_ref="DESIGN.md section 5 (C10), 3.3"),
+    "C01": dict(
+        category="model_checking",
+        technique="TLC enumerates every program of each slice of Programs.tla (explicit generator with the compile-time domain as WellFormed); each program is compiled as a real item deriving TS + serde; TsTypes.tla's denotation Inhabits(json, type, env) is evaluated by TLC on the real serde_json output against the real, parsed decl() (Trace_Binding.tla)",
+        text="~1.7k (quick) / ~15k (thorough) programs: all enum representations x per-variant untagged/skip/rename x 7 variant shapes x field types and skip/inline; rename_all / rename_all_fields / variant rename_all; named structs x 20 field types x {skip, flatten, inline, optional, optional=nullable, rename, default} x {tag, rename_all, optional_fields}; tuple/newtype/unit/empty structs; nesting through helper structs, enums of every representation and generics. For every generated value (each variant, Some/None, empty/non-empty) TLC decides membership of the real JSON in the real declared type, references followed, objects exact, bigint = JSON integer.",
+        note="Trusted: TLC, lib/tsparse.py (parser of the emitted TypeScript), serde/serde_json as pinned (the oracle), the renderer. Known findings KF-C01-1..4.",
+        design_ref="DESIGN.md section 5 (C01), 3.1, 3.2"),
+    "C02": dict(
+        category="model_checking",
+        technique="same corpus and denotation as C01; witnesses enumerated from the real declared type (type-directed) and near-miss variants of real samples, each confirmed an inhabitant by TLC (TsTypes.tla), then fed to the real serde Deserialize; acceptance and re-serialised membership judged by TLC",
+        text="For every program on which serde round-trips its own output: each union arm, optional-member subsets, array lengths 0..2, map sizes 0..1 and reordered / null-dropped variants of real samples (24/60 witnesses per program). A witness counts only after TLC has confirmed Inhabits(w, type); it must be accepted by Deserialize and serialize back into the type.",
+        note="Trusted: as C01. Witness generation is sampling within the declared type (not exhaustive); numbers are small integers. Known findings KF-C02-1..4.",
+        design_ref="DESIGN.md section 5 (C02)"),
 }
 
 NOT_YET = "check not built yet (work in progress, see DESIGN.md appendix B)"
